@@ -589,6 +589,19 @@ func (o *c16) Step(r *StepRec) []Violation {
 		if started && ended {
 			o.hit("context_ends_where_another_starts")
 		}
+		// a running repeated context whose total is already reached and that comes due again (restarted
+		// after its last batch expired while it was paused, or its total lowered to the batches it had)
+		// has finished: it is removed, not kept
+		for _, cid := range batchCandidates(pre, h) {
+			rc, ok := pre.Ctxs[cid]
+			if !ok || rc.State != stRunning || !totalReached(rc) {
+				continue
+			}
+			o.hit("finished_context_due_again")
+			if _, alive := post.Ctxs[cid]; alive {
+				o.fail("c16:ctx_left:due_again", "context %s has had all %d of its batches and came due again at %d, but is still stored (batch %d)", short(cid), rc.RepeatedTotal, h, post.Ctxs[cid].BatchCounter)
+			}
+		}
 	}
 	return o.take()
 }
